@@ -377,6 +377,55 @@ fn a_generated_effect_serialize_maps_variant_b() {
     kani::cover!(true, "C09/generated-serialize/B/reached");
 }
 
+// ---- the Command API's notification (command/context.rs:38-50)
+// crossbeam's send cannot be compiled by Kani (ICE, DESIGN 2.2); it is stubbed out: the request
+// is captured where the real code converts it into the effect (`request.into()`), so the
+// effect channel itself is not needed.
+use crate::command::CommandContext;
+use std::sync::Mutex;
+
+fn stub_xb_send<T>(_s: &crossbeam_channel::Sender<T>, t: T) -> Result<(), crossbeam_channel::SendError<T>> {
+    XB_SENDS.fetch_add(1, SeqCst);
+    std::mem::forget(t);
+    Ok(())
+}
+static XB_SENDS: AtomicUsize = AtomicUsize::new(0);
+static CAPTURED: Mutex<Option<Request<OpA>>> = Mutex::new(None);
+/// an effect type whose conversion from the request hands the request to the harness
+pub struct CapturingEffect;
+impl From<Request<OpA>> for CapturingEffect {
+    fn from(r: Request<OpA>) -> Self {
+        *CAPTURED.lock().unwrap() = Some(r);
+        CapturingEffect
+    }
+}
+fn test_context() -> CommandContext<CapturingEffect, u8> {
+    let (effects, _e) = crossbeam_channel::unbounded();
+    let (events, _v) = crossbeam_channel::unbounded();
+    let (tasks, _t) = crossbeam_channel::unbounded();
+    std::mem::forget((_e, _v, _t));
+    CommandContext { effects, events, tasks }
+}
+
+// NOT BUILT: the same for stream_from_shell / request_from_shell. With crossbeam's send stubbed the
+// harness compiles, but CBMC does not finish in 15 min: it cannot resolve the heap state of the
+// three crossbeam channels and of futures-mpsc concretely and explores their disconnect-on-drop
+// and lock-contention loops on every path (tried: unwind 2 and 3, forgetting every crossbeam
+// value, taking the ShellStream apart instead of polling it). The closures built there stay
+// `not_decided` for C02.
+
+#[kani::proof]
+#[kani::stub(crossbeam_channel::Sender::send, stub_xb_send)]
+fn a_command_notification_accepts_no_resolution() {
+    let ctx = test_context();
+    ctx.notify_shell(OpA(kani::any()));
+    assert!(XB_SENDS.load(SeqCst) == 1, "C02/command-notify/exactly-one-effect-sent");
+    let mut req = CAPTURED.lock().unwrap().take().unwrap();
+    assert!(matches!(req.resolve(kani::any()), Err(ResolveError::Never)), "C02/command-notify/resolution-rejected");
+    kani::cover!(true, "C02/command-notify/reached");
+    std::mem::forget(ctx);
+}
+
 // Concrete-playback tests generated by Kani for a failing run are written here by
 // /verif/bin/check (the file is empty otherwise).
 include!("/verif/work/playback/crux_core.rs");
